@@ -239,6 +239,93 @@ def gen_patterns(rng, ch):
     return pats
 
 
+
+# ----------------------------------------------------------------------------- lists in which per-pattern state must not leak
+# ResolvePatterns keeps state per pattern (`all`, the file/directory kind of the match, the per-pattern counters).  These lists
+# put a pattern of one kind in front of (behind, between) patterns of a different kind, over directories whose dot/underscore
+# entries make a leaked `all:` visible: `all:conf web` must not embed web/.hidden, `all:conf cache` (cache holding only `.keep`)
+# must be rejected, `web all:conf` and `a all:conf web` likewise keep `web` filtered.
+SC_DIRS = [b"conf", b"web", b"cache", b"assets", b"tpl", b"static"]
+
+
+def sc_dir(rng, only_hidden=False):
+    ch = {}
+    if not only_hidden:
+        for nm in rng.sample([b"index.html", b"app.js", b"k.txt", b"m.json", b"v"], rng.randint(1, 3)):
+            ch[nm] = N("f", data=rdata(rng))
+    for nm in rng.sample([b".hidden", b"_x", b".keep", b"_priv.txt", b".env"], rng.randint(1, 3)):
+        ch[nm] = N("f", data=rdata(rng))
+    r = rng.random()
+    if r < 0.35:
+        ch[rng.choice([b".sub", b"_gen"])] = N("d", children={b"inner.txt": N("f", data=rdata(rng))})
+    if r > 0.6 and not only_hidden:
+        ch[b"sub"] = N("d", children={b"u.txt": N("f", data=rdata(rng)), rng.choice([b".t", b"_t"]): N("f", data=rdata(rng))})
+    return ch
+
+
+def gen_state_carry(rng, outside):
+    """(children of the package directory, pattern list, note)"""
+    ch = gen_dir(rng, 1, top=True, outside=outside) if rng.random() < 0.4 else {}
+    names = rng.sample(SC_DIRS, rng.choice([2, 3, 3]))
+    hidden_only = rng.random() < 0.3
+    for i, nm in enumerate(names):
+        ch[nm] = N("d", children=sc_dir(rng, only_hidden=(hidden_only and i == 1)))
+    ch[b"f1.txt"] = N("f", data=rdata(rng))
+    ch[b"top.json"] = N("f", data=rdata(rng))
+    if rng.random() < 0.5:
+        ch[rng.choice([b".topdot", b"_topus"])] = N("f", data=rdata(rng))
+
+    def elem(d, kind):
+        """one pattern of the given kind aimed at directory d"""
+        vis = sorted(k for k, v in ch[d].children.items() if v.kind == "f" and k[0:1] not in (b".", b"_"))
+        if kind == "dirlit":
+            return d
+        if kind == "dirglob":
+            return rng.choice([d[:2] + b"*", b"?" + d[1:], b"[" + d[:1] + b"]" + d[1:], d[:-1] + b"?"])
+        if kind == "innerglob":
+            return d + b"/*"
+        if kind == "subdir" and b"sub" in ch[d].children:
+            return d + b"/sub"
+        if kind == "filelit" and vis:
+            return d + b"/" + rng.choice(vis)
+        if kind == "fileglob":
+            return rng.choice([b"*.txt", b"*.json", b"f1.*", d + b"/*.*"])
+        if kind == "topfile":
+            return rng.choice([b"f1.txt", b"top.json"])
+        return d
+
+    dir_kinds = ["dirlit", "dirlit", "dirglob", "innerglob", "subdir"]
+    file_kinds = ["filelit", "fileglob", "topfile"]
+    x, y, z = names[0], names[1], names[-1]
+    t = rng.randrange(12)
+    A = lambda p: b"all:" + p
+    if t == 0:
+        pats, note = [A(elem(x, rng.choice(dir_kinds))), elem(y, rng.choice(dir_kinds))], "all:dir then plain dir"
+    elif t == 1:
+        pats, note = [elem(y, rng.choice(dir_kinds)), A(elem(x, rng.choice(dir_kinds)))], "plain dir then all:dir"
+    elif t == 2:
+        pats, note = [elem(y, rng.choice(dir_kinds + file_kinds)), A(elem(x, rng.choice(dir_kinds))), elem(z, rng.choice(dir_kinds))], "all: in the middle of three"
+    elif t == 3:
+        pats, note = [A(elem(x, rng.choice(dir_kinds))), elem(y, rng.choice(dir_kinds)), elem(z, rng.choice(dir_kinds + file_kinds))], "all: first of three"
+    elif t == 4:
+        pats, note = [A(elem(x, rng.choice(file_kinds))), elem(y, "dirlit")], "all:file/glob then plain dir"
+    elif t == 5:
+        pats, note = [A(elem(x, "dirlit")), elem(y, "dirglob")], "all:literal dir then globbed dir"
+    elif t == 6:
+        pats, note = [elem(x, "topfile"), A(elem(x, rng.choice(dir_kinds))), elem(y, "innerglob")], "file, all:dir, glob inside dir"
+    elif t == 7:
+        pats, note = [A(elem(y, "dirlit")), elem(y, "dirlit")], "all:dir then the same dir plain"
+    elif t == 8:
+        pats, note = [elem(x, rng.choice(file_kinds)), elem(y, rng.choice(dir_kinds))], "file then dir (no all:)"
+    elif t == 9:
+        pats, note = [elem(y, rng.choice(dir_kinds)), elem(x, rng.choice(file_kinds)), elem(z, "dirglob")], "dir, file, globbed dir (no all:)"
+    elif t == 10:
+        pats, note = [A(elem(x, "dirglob")), elem(y, "filelit"), elem(z, "dirlit")], "all:glob, literal file, literal dir"
+    else:
+        pats, note = [A(elem(x, "innerglob")), elem(y, "dirlit"), A(elem(z, "dirlit"))], "all:, plain, all:"
+    return ch, pats, "state-carry: " + note
+
+
 SAFE_BARE = re.compile(rb"^[A-Za-z0-9_./*?\[\]\-:^+=@~,#$%&(){}!]+$")
 
 
@@ -343,7 +430,10 @@ def parse_files(line):
 # ----------------------------------------------------------------------------- directive-level cases
 D_TREE = {b"a": N("f", data=b"A"), b"b": N("f", data=b"B"), b"x": N("f", data=b"X"), b"a b": N("f", data=b"AB"),
           b"'a'": N("f", data=b"QA"), b"d": N("d", children={b"f": N("f", data=b"F"), b".g": N("f", data=b"G")}),
-          b"c.txt": N("f", data=b"C")}
+          b"c.txt": N("f", data=b"C"),
+          b"w": N("d", children={b"i": N("f", data=b"I"), b".hid": N("f", data=b"H"), b"_x": N("f", data=b"U"),
+                                 b"s": N("d", children={b".t": N("f", data=b"T"), b"u": N("f", data=b"V")})}),
+          b"cache": N("d", children={b".keep": N("f", data=b"")})}
 
 # (class, source text after the import block).  Tabs directly after `go:embed` are avoided: go/build and the
 # compiler disagree on them (go/build takes the line, the compiler ignores it).
@@ -364,6 +454,22 @@ D_TEMPLATES = [
     ("plain", "//go:embed\nvar V embed.FS\n"),
     ("plain", "//go:embed a\nvar V, W embed.FS\n"),
     ("plain", "//go:embed a\"b\nvar V embed.FS\n"),
+    # per-pattern state: `all:` must hold for its own pattern only (w has dot/underscore entries, cache only `.keep`)
+    ("plain", "//go:embed all:d w\nvar V embed.FS\n"),
+    ("plain", "//go:embed w all:d\nvar V embed.FS\n"),
+    ("plain", "//go:embed a all:d w\nvar V embed.FS\n"),
+    ("plain", "//go:embed all:d w a\nvar V embed.FS\n"),
+    ("plain", "//go:embed all:d cache\nvar V embed.FS\n"),
+    ("plain", "//go:embed cache all:d\nvar V embed.FS\n"),
+    ("plain", "//go:embed all:cache w\nvar V embed.FS\n"),
+    ("plain", "//go:embed all:d\n//go:embed w\nvar V embed.FS\n"),
+    ("plain", "//go:embed all:*.txt w\nvar V embed.FS\n"),
+    ("plain", "//go:embed all:d w/*\nvar V embed.FS\n"),
+    ("plain", "//go:embed all:d w/s\nvar V embed.FS\n"),
+    ("plain", "//go:embed \"all:d\" `w`\nvar V embed.FS\n"),
+    ("plain", "//go:embed all:w/i w\nvar V embed.FS\n"),
+    ("plain", "//go:embed c.txt w all:w/s\nvar V embed.FS\n"),
+    ("plain", "//go:embed all:d\nvar V embed.FS\n//go:embed w\nvar W embed.FS\n"),
     ("directive:blank-before-go-embed", "// go:embed x\nvar V embed.FS\n"),
     ("directive:blank-before-go-embed", "//  go:embed a b\nvar V embed.FS\n"),
     ("directive:blank-before-go-embed", "//\tgo:embed nosuch\nvar V embed.FS\n"),
@@ -411,7 +517,7 @@ def d_class_of(src):
 def gen_directive_src(rng):
     """random single-var sources from a small alphabet (the malformed stream)"""
     toks = ["a", "b", "x", "\"a b\"", "`c.txt`", "d", "all:d", "*.txt", "nosuch", "\"a\"", "'a'", "a\u00a0b", "\"a\"\"b\"",
-            "`a`x", "\"a", ".", "d/f", "\"d/f\"", "  ", " "]
+            "`a`x", "\"a", ".", "d/f", "\"d/f\"", "  ", " ", "w", "w", "all:w", "cache", "all:cache", "w/*", "w/s", "all:d", "all:c.txt"]
     line = "//" + rng.choice(["", "", "", "", " "]) + "go:embed" + rng.choice([" ", " ", "  ", ""])
     line += " ".join(rng.choice(toks) for _ in range(rng.randint(0, 3)))
     tail = rng.choice(["\nvar V embed.FS\n", "\nvar V embed.FS\n", "\nvar V embed.FS\n", "\n\nvar V embed.FS\n", "\nvar (\n\tV embed.FS\n)\n"])
